@@ -256,6 +256,69 @@ def iterRaw (C : Compression) (sf : StoreFile) (alive : Nat → Bool) : List (Op
   let last := (cps.getLast?.map (·.docEnd)).getD 0
   iterLoop C sf alive last 0 cps.head? cps.tail (cps.head?.map (readBlockRaw C sf)) 0
 
+/-- reading the block of an optional checkpoint through the cache -/
+def readBlockOpt (C : Compression) (sf : StoreFile) (cache : BlockCache) :
+    Option Checkpoint → Option (Option Bytes) × BlockCache
+  | none => (none, cache)
+  | some cp => let r := readBlock C sf cache cp; (some r.1, r.2)
+
+/-- the loop of `iter_raw` as the code runs it: every block is obtained with `read_block`, i.e.
+through the reader's LRU cache, whose state is threaded along -/
+def iterLoopCached (C : Compression) (sf : StoreFile) (alive : Nat → Bool) :
+    Nat → Nat → Option Checkpoint → List Checkpoint → Option (Option Bytes) → Nat → BlockCache →
+      List (Option Bytes) × BlockCache
+  | 0, _, _, _, _, _, cache => ([], cache)
+  | n + 1, doc, cur, rest, block, pos, cache =>
+    match cur with
+    | none => ([], cache)
+    | some c =>
+      let moved := decide (doc ≥ c.docEnd)
+      let cur' := if moved then rest.head? else cur
+      let rest' := if moved then rest.tail else rest
+      let rb := if moved then readBlockOpt C sf cache rest.head? else (block, cache)
+      let pos' := if moved then 0 else pos
+      let out : List (Option Bytes) :=
+        if alive doc then
+          [match rb.1 with
+           | none => none
+           | some none => none
+           | some (some b) => docFromBlock b pos']
+        else []
+      let r := iterLoopCached C sf alive n (doc + 1) cur' rest' rb.1 (pos' + 1) rb.2
+      (out ++ r.1, r.2)
+
+/-- `StoreReader::iter_raw` with the cache -/
+def iterRawCached (C : Compression) (sf : StoreFile) (alive : Nat → Bool) (cache : BlockCache) :
+    List (Option Bytes) × BlockCache :=
+  let cps := checkpointsOf sf.index
+  let last := (cps.getLast?.map (·.docEnd)).getD 0
+  let rb := readBlockOpt C sf cache cps.head?
+  iterLoopCached C sf alive last 0 cps.head? cps.tail rb.1 0 rb.2
+
+/-- what a user does with one `StoreReader`: fetch a document, or iterate with an alive bitset -/
+inductive ReaderOp where
+  | get (doc : Nat)
+  | iter (alive : List Bool)
+
+def aliveOfList (l : List Bool) : Nat → Bool := fun i => l.getD i true
+
+/-- the answers without any cache -/
+def ReaderOp.plain (C : Compression) (sf : StoreFile) : ReaderOp → List (Option Bytes)
+  | .get d => [getBytes C sf d]
+  | .iter al => iterRaw C sf (aliveOfList al)
+
+/-- a sequence of operations on one reader, all going through its block cache -/
+def runOps (C : Compression) (sf : StoreFile) : BlockCache → List ReaderOp → List (List (Option Bytes)) × BlockCache
+  | cache, [] => ([], cache)
+  | cache, .get d :: ops =>
+    let r := getBytesCached C sf cache d
+    let rs := runOps C sf r.2 ops
+    ([r.1] :: rs.1, rs.2)
+  | cache, .iter al :: ops =>
+    let r := iterRawCached C sf (aliveOfList al) cache
+    let rs := runOps C sf r.2 ops
+    (r.1 :: rs.1, rs.2)
+
 /-! ### merge -/
 
 /-- one source segment of a merge; `codec` is the block codec its store was written with (the
@@ -266,10 +329,31 @@ structure SourceSegment where
   alive : Nat → Bool
   hasDeletes : Bool
 
-/-- the guard of the stacking shortcut in `write_storable_fields` (true = copy per document) -/
+/-- third clause of the copy condition, with the comparison operator found in the source -/
+def codecClause (C : Compression) (s : SourceSegment) : Bool :=
+  if Gen.STACK_CODEC_CLAUSE_IS_NE = 1 then decide (s.store.decompId ≠ C.id)
+  else decide (s.store.decompId = C.id)
+
+/-- `AliveBitSet::num_alive_docs` over `max_doc` documents -/
+def numAlive (alive : Nat → Bool) (maxDoc : Nat) : Nat := ((List.range maxDoc).filter alive).length
+
+/-- `intersect_alive_bitset`: the segment's own deletes and the caller's filter (either may be absent) -/
+def intersectAlive (own custom : Option (Nat → Bool)) : Nat → Bool :=
+  fun i => (own.map (· i)).getD true && (custom.map (· i)).getD true
+
+/-- a source segment as `SegmentReader::open_with_custom_alive_set` presents it to the merger
+(`merge_filtered_segments`; an ordinary merge has `custom = none`): `has_deletes()` is
+`max_doc - num_docs > 0` with `num_docs` counted on the intersected bitset -/
+def SourceSegment.ofReader (store : StoreFile) (codec : Compression) (own custom : Option (Nat → Bool))
+    (maxDoc : Nat) : SourceSegment :=
+  { store := store, codec := codec, alive := intersectAlive own custom,
+    hasDeletes := decide (maxDoc - numAlive (intersectAlive own custom) maxDoc > 0) }
+
+/-- the guard of the stacking shortcut in `write_storable_fields` (true = copy per document):
+`reader.has_deletes() || block_checkpoints().take(7).count() < 6 || decompressor != compressor` -/
 def mustCopy (C : Compression) (minBlocks : Nat) (s : SourceSegment) : Bool :=
   s.hasDeletes || decide (((checkpointsOf s.store.index).take (minBlocks + 1)).length < minBlocks)
-    || decide (s.store.decompId ≠ C.id)
+    || codecClause C s
 
 /-- per-document copy: `for doc_bytes in iter_raw(alive) { store_bytes(doc_bytes?) }`;
 `none` = the merge fails -/
